@@ -4,6 +4,27 @@ import json, os
 V = os.path.dirname(os.path.dirname(os.path.abspath(__file__)))
 
 # property id -> (technique, level text, level note, design ref)
+# rules added in the fifth seeding round / third refactoring round (DESIGN.md section 4, "Round 5")
+ROUND5 = {
+ 'C01': 'the backslash case replaces the noesc tag on every way through it (R01.9); encoder siblings compared with private helpers expanded (R01.3).',
+ 'C03': 'events emitted through helpers count at the caller (R03.5); a reused CBOR cursor forgets pending tags (R07.cbor.tags reset clause).',
+ 'C04': 'integer events match the signedness parsed into and the sign dispatch (R04.3); constructor initialisers copy each option into the member named after it (R04.8).',
+ 'C05': 'growing index into a fixed local array (R05.15), indexed reads of a view parameter (R05.16), borrowed bounds between member containers (R05.17).',
+ 'C06': 'MessagePack timestamp sign mirror between encoder and decoder (R06.msgpack); item bookkeeping of the visitor adaptors (R07.adaptor).',
+ 'C07': 'CBOR reset clears pending tags (R07.cbor.tags); visitor adaptors count every item (R07.adaptor); BSON closers found by what they report.',
+ 'C08': 'outcome objects of nested dump/encode calls are read (R08.5).',
+ 'C09': 'kind snapshots in the kinds dataflow.',
+ 'C10': 'reset() sets the depth counter back to 0 (R10.8); limit test accepted inside a bool helper (R10.5).',
+ 'C11': 'child-value contexts carry fresh evaluation flags (R11.11); is_valid answers from the error count (R11.3).',
+ 'C12': 'per-element error state in selector loops (R12.13).',
+ 'C13': 'values of nested evaluations are stored only after their error_code was tested (R13.12).',
+ 'C14': 'operator< of json_pointer is the lexicographic token comparison unflatten relies on (R14.8).',
+ 'C16': 'in-place form of the algorithm accepted; a patch value stored unmerged must be a non-object (R16.4).',
+ 'C17': 'mandatory and optional outcomes of the generated member tests differ (R17.2); no string handed on through c_str() alone (R17.11, with a positive example).',
+ 'C18': 'reinitialize keeps the configured column names (R18.13); byte-order-mark test on the first chunk only (R02.8 shared).',
+ 'C19': 'non-throwing moves take the members of their source as rvalues (R19.10).',
+}
+
 CLAIMED = {
  'C03': ('CFG dominance + dispatch-table extraction over the clang AST (resume-state consistency, token carry)',
          'Static rule check: every suspend point of the incremental JSON number/string automata (all instantiations) restores the label it left and carries the partial token; decided from the resolved AST, no execution. Necessary structural clauses of chunking independence, not the behaviour. Also: short-read agreement of every source read (R03.8) and the cursor-bounds typestate of the JSON scanners (R05.6: no dereference past the chunk end). CSV parser included; the mark-level test of a close sees the level the container was opened at. Also: views of the current cursor event are not used after the cursor was advanced (R03.9); the cursor constructors hand on the error of the first read (R03.10); R02.8 shared.',
@@ -96,6 +117,7 @@ def main():
     for pid in props:
         if pid not in CLAIMED or pid in HOLD: continue
         tech, text, note, ref = CLAIMED[pid]
+        if pid in ROUND5: text = text + ' Also: ' + ROUND5[pid]
         checks.append({
             'property_id': pid,
             'quick_cmd': 'python3 bin/vcheck %s --tier quick' % pid,
